@@ -1800,6 +1800,10 @@ def systematic_histories(thorough=False):
             out.append(('premature-init:%s:%d' % (g, k), h))
             if g in READS:
                 out.append(('premature-init-after-public:%s:%d' % (g, k), ['pub.read:%s:%s' % (g, list(READS[g])[0])] + h))
+                # ... and the refused call as the last thing that happens to that group before the public table is used
+                out.append(('premature-init-then-public:%s:%d' % (g, k),
+                            ['new:T1'] + ['init:T1:%s' % q for q in needs[:k]] + ['init0:T1:%s' % g,
+                                                                                 'pub.read:%s:%s' % (g, list(READS[g])[0])]))
     if thorough:
         # ordered pairs over {init(T1) g, first public touch of g'} and triples with a second table
         for g1 in LAZY:
